@@ -1,8 +1,8 @@
 SPECIFICATION Spec
-CONSTANTS Nib = {0, 1, 15}
+CONSTANTS Nib = {0, 1}
           KeyLen = 3
           Vals = {271}
           Pad = 1
-          MaxKeys = 3
+          MaxKeys = 8
 INVARIANTS StackRootInv StackEmitInv StackNoPanicInv
 CHECK_DEADLOCK FALSE
